@@ -145,7 +145,9 @@ def main():
     outdir = os.path.join(common.OUT_ROOT, cid)
     shutil.rmtree(outdir, ignore_errors=True)
     os.makedirs(os.path.join(outdir, 'replay'), exist_ok=True)
-    os.makedirs(os.path.join(VERIF, 'evidence'), exist_ok=True)
+    # evidence goes to /verif/evidence unless a scratch output root was asked for (seed matrix runs)
+    evdir = os.environ.get('VERIF_EVIDENCE_DIR') or os.path.join(VERIF, 'evidence')
+    os.makedirs(evdir, exist_ok=True)
     try:
         common.setup_repo()
         shards = mod.shards(args.tier)
@@ -234,7 +236,7 @@ def main():
         'coverage': cov, 'assumptions': meta.get('assumptions', []), 'wall_s': round(wall, 2),
         'violations': len(new),
     }
-    with open(os.path.join(VERIF, 'evidence', cid + '.json'), 'w', encoding='utf-8') as f:
+    with open(os.path.join(evdir, cid + '.json'), 'w', encoding='utf-8') as f:
         json.dump(ev, f, ensure_ascii=True, indent=1, sort_keys=True)
     print('%s tier=%s seed=%d evaluations=%d distinct_nontrivial=%d known=%d new=%d wall=%.1fs' % (
         cid, args.tier, common.SEED, agg['evaluations'], agg['nontrivial'], len(known_seen), len(new), wall))
